@@ -76,6 +76,8 @@ def gen_cases(tier):
     # parameterised fields: parameter type x argument form x size form x start form
     for ptype in ("Kind", "UInt:8"):
         yield {"kind": "param-dyn", "ptypes": [ptype]}
+    # virtual aliases of every scalar type, with and without [requires] (which turns the alias into a transform)
+    yield {"kind": "virt-alias-req"}
 
 
 UNCHECKED = r'''
@@ -352,6 +354,26 @@ def check_case(case):
             if status == "ok":
                 nt.append(label)
         return {"viol": viol, "n": len(case["others"]), "nt": nt}
+    if k == "virt-alias-req":
+        viol, nt = [], []
+        n = 0
+        for ftype, req in (("UInt", "this < 100"), ("Int", "this != -1"), ("Kind", "this != Kind.KB"), ("Flag", "this"), ("Bcd", "this < 50")):
+            for with_req in (False, True):
+                for second in (False, True):
+                    n += 1
+                    fld = "  1 [+1]  bits:\n    0 [+1]  Flag  raw\n    1 [+7]  UInt  rest\n" if ftype == "Flag" else "  1 [+1]  %s  raw\n" % ftype
+                    main = ('[$default byte_order: "LittleEndian"]\nenum Kind:\n  KA = 0\n  KB = 1\nstruct Main:\n  0 [+1]  UInt  pad\n' + fld +
+                            "  let checked = raw\n" + ("    [requires: %s]\n" % req if with_req else "") + ("  let again = checked\n" if second else ""))
+                    cns = "::emboss_generated_code"
+                    drv = ("#include \"prog.emb.h\"\n#include <string>\nint main() { unsigned char b[4] = {0, 0, 0, 0}; auto v = %s::MakeMainView(b, sizeof b); (void)v.Ok();"
+                           " (void)v.checked().Ok(); if (v.checked().Ok()) (void)v.checked().Read(); std::string t = ::emboss::WriteToString(v);"
+                           " (void)::emboss::UpdateFromText(v, t); (void)::emboss::WriteToString(v, ::emboss::MultilineText()); auto w = v; (void)v.Equals(w); return 0; }\n" % cns)
+                    label = "virt-alias-req %s requires=%s second=%s" % (ftype, with_req, second)
+                    v, status = compile_only({"m.emb": main}, "m.emb", lambda ir: drv, "c++14", True, "g++", label, {"emb": main})
+                    viol.extend(v)
+                    if status == "ok":
+                        nt.append(label)
+        return {"viol": viol, "n": n, "nt": nt}
     if k == "param-dyn":
         viol, nt = [], []
         n = 0
